@@ -39,15 +39,28 @@ fn drain(rx: &mut Receiver<Event>) -> Vec<Ev> {
 pub struct Subs {
     pub rxs: Vec<Receiver<Event>>,
     pub announced: BTreeSet<u64>,
+    /// a subscriber that is NOT drained after every call: it is read only at the end of the history
+    /// (or before a reopen) and must then hold the same events, in operation order, as the per-call
+    /// lists the eager subscribers saw since it subscribed (`lazy_log`); when more than 32 events
+    /// piled up the channel may have dropped the oldest ones (best-effort delivery), then what it
+    /// holds must be a suffix of that log
+    pub lazy: Option<Receiver<Event>>,
+    pub lazy_log: Vec<Ev>,
+    pub lazy_checked: u64,
+    pub lazy_overflowed: u64,
 }
 
 impl Subs {
     fn new() -> Self {
-        Subs { rxs: vec![], announced: BTreeSet::new() }
+        Subs { rxs: vec![], announced: BTreeSet::new(), lazy: None, lazy_log: vec![], lazy_checked: 0, lazy_overflowed: 0 }
     }
     fn subscribe(&mut self, core: &Hypercore) {
         if self.rxs.len() < 4 {
             self.rxs.push(core.event_subscribe());
+            if self.lazy.is_none() {
+                self.lazy = Some(core.event_subscribe());
+                self.lazy_log.clear();
+            }
         }
     }
     fn resubscribe(&mut self, core: &Hypercore) {
@@ -56,11 +69,50 @@ impl Subs {
         for _ in 0..n {
             self.rxs.push(core.event_subscribe());
         }
+        self.lazy = None;
+        self.lazy_log.clear();
+        if n > 0 {
+            self.lazy = Some(core.event_subscribe());
+        }
+    }
+    /// Read the lazy subscriber and compare it with what the eager ones saw call by call.
+    pub fn check_lazy(&mut self, ctxt: &str) -> Check {
+        if self.lazy.is_none() {
+            return Ok(());
+        }
+        // whatever the eager subscribers have not read yet belongs to the log as well
+        let _ = self.collect(ctxt)?;
+        let Some(mut rx) = self.lazy.take() else { return Ok(()) };
+        let got_all = drain(&mut rx);
+        let lost: u64 = got_all.iter().filter_map(|e| if let Ev::Have(u64::MAX, n, true) = e { Some(*n) } else { None }).sum();
+        let got: Vec<Ev> = got_all.into_iter().filter(|e| !matches!(e, Ev::Have(u64::MAX, _, true))).collect();
+        let log = std::mem::take(&mut self.lazy_log);
+        self.lazy_checked += 1;
+        if log.len() <= 32 {
+            if lost != 0 || got != log {
+                return Err(Failure::new(
+                    "lazy-subscriber-differs",
+                    format!("{ctxt}: a subscriber read only now holds {got:?} (lost {lost}), the subscribers read after every call saw {log:?}"),
+                ));
+            }
+        } else {
+            self.lazy_overflowed += 1;
+            if got.len() > log.len() || log[log.len() - got.len()..] != got[..] {
+                return Err(Failure::new(
+                    "lazy-subscriber-not-a-suffix",
+                    format!("{ctxt}: after an overflow a subscriber read only now holds {got:?}, which is not a suffix of {log:?}"),
+                ));
+            }
+        }
+        Ok(())
     }
     /// Drain all receivers; all must have seen the same list. Returns it (None without subscribers).
     fn collect(&mut self, ctxt: &str) -> Result<Option<Vec<Ev>>, Failure> {
         let mut lists: Vec<Vec<Ev>> = self.rxs.iter_mut().map(drain).collect();
         let Some(first) = lists.pop() else { return Ok(None) };
+        if self.lazy.is_some() {
+            self.lazy_log.extend(first.iter().cloned());
+        }
         for (i, l) in lists.iter().enumerate() {
             if *l != first {
                 return Err(Failure::new("subscribers-disagree", format!("{ctxt}: subscriber {i} saw {l:?} but the last subscriber saw {first:?}")));
@@ -130,6 +182,25 @@ pub fn wevents_strategy() -> impl Strategy<Value = Vec<WEOp>> {
     prop::collection::vec(op, 1..40)
 }
 
+/// Long writer histories: enough events for a subscriber that is not read to fall behind by more
+/// than the channel holds, and batches of hundreds of blocks whose log entries take the oplog
+/// over its 64 KiB budget (an out-of-turn flush inside the call).
+pub fn wevents_long_strategy() -> impl Strategy<Value = Vec<WEOp>> {
+    let op = prop_oneof![
+        8 => small_blk_strategy().prop_map(|b| WEOp::Do(Op::Append(b))),
+        3 => prop::collection::vec(small_blk_strategy(), 0..4).prop_map(|b| WEOp::Do(Op::Batch(b))),
+        2 => prop_oneof![Just(300u32), Just(480), Just(900), Just(1000), Just(1900)].prop_map(|n| WEOp::Do(Op::Big(n))),
+        2 => clear_strategy().prop_map(WEOp::Do),
+        4 => idx_strategy().prop_map(|i| WEOp::Do(Op::Get(i))),
+        1 => Just(WEOp::Do(Op::Reopen)),
+        2 => Just(WEOp::Subscribe),
+    ];
+    prop::collection::vec(op, 30..90).prop_map(|mut v| {
+        v.insert(0, WEOp::Subscribe);
+        v
+    })
+}
+
 pub fn run_writer(ops: &[WEOp], local: &mut Local) -> Check {
     let disk = Disk::new();
     let mut sim = WSim::create(&disk, ObsPolicy::Windowed)?;
@@ -178,7 +249,12 @@ pub fn run_writer(ops: &[WEOp], local: &mut Local) -> Check {
                 }
                 Some(vec![Ev::Upgrade, Ev::Have(old_len, b.len() as u64, false)])
             }
-            (Op::Batch(_), _) | (Op::Append(_), _) => {
+            (Op::Big(n), Out::Appended { .. }) if writeable => {
+                multi_batch = true;
+                local.class("batches_of_hundreds_of_blocks_announced");
+                Some(vec![Ev::Upgrade, Ev::Have(old_len, *n as u64, false)])
+            }
+            (Op::Batch(_), _) | (Op::Append(_), _) | (Op::Big(_), _) => {
                 noop_calls += 1;
                 Some(vec![])
             }
@@ -199,6 +275,7 @@ pub fn run_writer(ops: &[WEOp], local: &mut Local) -> Check {
         sim.check_and_advance(op, &out)?;
         sim.step += 1;
         if matches!(op, Op::Reopen) {
+            subs.check_lazy(&ctxt)?;
             subs.resubscribe(sim.core());
             continue;
         }
@@ -226,6 +303,9 @@ pub fn run_writer(ops: &[WEOp], local: &mut Local) -> Check {
             return Err(Failure::new("announced-not-held", format!("announced {:?} but only {:?} became available", subs.announced, became_held)));
         }
     }
+    subs.check_lazy("end of the writer history")?;
+    local.class_n("lazy_subscriber_checks", subs.lazy_checked);
+    local.class_n("lazy_subscriber_checks_after_overflow", subs.lazy_overflowed);
     local.class("writer_histories");
     if subs.rxs.len() >= 2 {
         local.class("with_two_or_more_subscribers");
@@ -413,6 +493,7 @@ pub fn run_replica(ops: &[REOp], local: &mut Local) -> Check {
                     // the injected fault made open fail: there is no instance any more
                     break;
                 }
+                subs.check_lazy(&ctxt)?;
                 let r = sim.r.as_ref().unwrap();
                 subs.resubscribe(r);
             }
@@ -452,6 +533,9 @@ pub fn run_replica(ops: &[REOp], local: &mut Local) -> Check {
             ));
         }
     }
+    subs.check_lazy("end of the replica history")?;
+    local.class_n("lazy_subscriber_checks", subs.lazy_checked);
+    local.class_n("lazy_subscriber_checks_after_overflow", subs.lazy_overflowed);
     local.class("replica_histories");
     if accepted > 0 {
         local.class("with_accepted_proof");
@@ -470,19 +554,22 @@ pub fn run_replica(ops: &[REOp], local: &mut Local) -> Check {
 
 pub fn run(ctx: &Ctx) {
     ctx.set_rule(
-        "cases = histories with 0..4 subscribers (all drained with try_recv after every call, so < 32 events are pending). Writers: \
+        "cases = histories with 0..4 subscribers (all drained with try_recv after every call, so < 32 events are pending). Writers (histories of up to 40 calls, and long ones of 30-90 calls with batches of 300-1900 blocks): \
          appends, batches (incl. empty), clears, gets of held/missing/out-of-range indices, has/info, make_read_only followed by refused \
          appends, reopen (re-subscribing). Replicas: C03 sessions plus honest proofs altered by 1-2 alterations of the C04 set, proofs \
          with another fork, gets, replica clears. Oracle per call: the exact expected event list (append: [DataUpgrade, Have(old \
          length, n, false)]; accepted proof: [DataUpgrade] iff it carried an upgrade then [Have(index,1,false)] iff it carried a \
          block; get of a non-held index: [Get(index)]; held get/has/info/empty batch/refused/failed calls: []), identical for every \
          subscriber; clear must not announce availability; the union of announced ranges equals the set of indices that became \
-         available (when subscribed from the start). Non-trivial = >= 2 subscribers with (writer) a batch of >= 2 blocks and a no-op \
+         available (when subscribed from the start). One further subscriber per history is NOT read after every call but only at the \
+         end (or before a reopen): it must then hold exactly the concatenation of the per-call lists, in operation order (a suffix of it \
+         when more than 32 events piled up, the channel being best-effort beyond its capacity). Non-trivial = >= 2 subscribers with (writer) a batch of >= 2 blocks and a no-op \
          call, or (replica) >= 1 accepted and >= 1 refused proof.",
     );
     ctx.assume("event content of calls the statement does not mention (missing_nodes, clear) is not asserted beyond 'clear announces no availability'");
-    random_stage(ctx, "writers", ctx.tier.pick(20_000, 1_500_000), wevents_strategy, |ops: &Vec<WEOp>, local| run_writer(ops, local));
-    random_stage(ctx, "replicas", ctx.tier.pick(12_000, 1_000_000), revents_strategy, |ops: &Vec<REOp>, local| run_replica(ops, local));
+    random_stage(ctx, "writers", ctx.tier.pick(100_000, 1_500_000), wevents_strategy, |ops: &Vec<WEOp>, local| run_writer(ops, local));
+    random_stage(ctx, "long-writers", ctx.tier.pick(1_500, 40_000), wevents_long_strategy, |ops: &Vec<WEOp>, local| run_writer(ops, local));
+    random_stage(ctx, "replicas", ctx.tier.pick(60_000, 1_000_000), revents_strategy, |ops: &Vec<REOp>, local| run_replica(ops, local));
 }
 
 pub fn replay(case: &Value) -> Check {
